@@ -3,7 +3,7 @@
     what the implementation returned.  [*_mismatch]: model vs implementation.
     [*_violates]: the property acceptor rejects what the implementation did. *)
 From Coq Require Import Uint63.
-From WM Require Import Base.Prelude Message.Model Value.Model Value.Codec Value.Json.
+From WM Require Import Base.Prelude Message.Model Value.Model Value.Codec Value.Json Value.Reuse.
 
 (** long byte strings arrive packed, 7 bytes per primitive 63-bit integer (little endian), the
     last word holding [tail] bytes: one cheap token per 7 bytes for Coq's parser.  Only the
@@ -315,6 +315,45 @@ Definition cc_mismatch (x : cc_case) : bool :=
            | Err _ => true
            end).
 Definition cc_mismatches (cs : list cc_case) := positions (map cc_mismatch cs).
+
+(** round "seeds 3": one Unmarshal into a target that already holds [t_prev]; the library oracles
+    are what the documented calls return on an independent copy of that target ([*into]) and on
+    a fresh one ([*fresh]) *)
+Record tg_case := TgC {
+  t_kind : nat; t_nofb : bool; t_ismsg : bool; t_isgogo : bool;
+  t_v : option str;                      (* the value that was marshalled (None: payload not from Marshal) *)
+  t_payload : option (list N);
+  t_prev : str;
+  t_vinto : option str; t_vfresh : option str;
+  t_ginto : lib str; t_gleft : str; t_gfresh : lib str;
+  t_got : res str                        (* implementation: error kind, or what the target holds afterwards *)
+}.
+Definition tg_model (c : tg_case) (into : bool) : res str :=
+  let m := Msg [] (t_payload c) None in
+  let vd := fun (_ : str) (_ : list N) => if into then t_vinto c else t_vfresh c in
+  let gd := fun (_ : str) (_ : list N) => (if into then t_ginto c else t_gfresh c, t_gleft c) in
+  match t_kind c with
+  | 0 => json_unmarshal_into str vd (t_prev c) m
+  | 1 => proto_unmarshal_into str vd (t_ismsg c) (t_prev c) m
+  | _ => gogo_unmarshal_into str vd (t_ismsg c) (t_isgogo c) gd (t_nofb c) repo_gogo_fixed (t_prev c) m
+  end.
+Definition tg_mismatch (c : tg_case) : bool := negb (res_eqb str_eqb (tg_model c true) (t_got c)).
+(** verdict only where the libraries keep their side (read the value back, into this target as
+    into a fresh one): then the target must hold exactly the value that was marshalled *)
+Definition tg_laws (c : tg_case) : bool :=
+  match t_v c with
+  | Some v => res_eqb str_eqb (tg_model c true) (Ok v) && res_eqb str_eqb (tg_model c false) (Ok v)
+  | None => false
+  end.
+Definition tg_violates (c : tg_case) : bool :=
+  match t_v c with
+  | Some v => tg_laws c && negb (res_eqb str_eqb (t_got c) (Ok v))
+  | None => false
+  end.
+Definition tg_mismatches (cs : list tg_case) := positions (map tg_mismatch cs).
+Definition tg_violations (cs : list tg_case) := positions (map tg_violates cs).
+Definition tg_law_failures (cs : list tg_case) :=
+  positions (map (fun c => match t_v c with Some _ => negb (tg_laws c) | None => false end) cs).
 
 Definition js_mismatches (cs : list js_case) := positions (map js_mismatch cs).
 Definition b64_mismatches (cs : list b64_case) := positions (map b64_mismatch cs).
